@@ -1,5 +1,448 @@
-/- C12: statements in progress; this placeholder keeps the module buildable. -/
+/-
+C12 — Config values are immutable: no Match* call, no Skip, no Clean and no t.Cleanup writes
+through a `*Config`; the path a call addresses is a function of the Config VALUE it was given,
+so the order of calls through a shared Config is irrelevant for the addressing.
+
+The fact "no assignment through a *Config receiver/parameter exists in the source"
+(`Generated.configWrites = []`) is regenerated from /repo on every run; theorem
+`no_config_writes` is the obligation on it.  `Driver.docOp` consults the same fact to decide
+whether `(*Config).MatchStandaloneJSON`'s defaulting of the extension lands in the shared
+Config (`setCfg`) or in a copy.
+-/
 import GoSnaps.Model
+import GoSnaps.Clean
+import GoSnaps.Driver
+import GoSnaps.Props.C19
+import GoSnaps.Lemmas.Update
 namespace GoSnaps.C12
-theorem handleError_counts (w : World) (msg : Text) : (handleError w msg).1.events.erred = w.events.erred + 1 := rfl
+
+open GoSnaps
+
+/-! ## 1. the regenerated structural fact -/
+
+/-- no write through a `*Config` in the current source (fails to check if one is introduced) -/
+theorem no_config_writes : Generated.configWrites = [] := by decide
+
+/-! ## 2. no model step changes the Config store -/
+
+theorem config_immutable_handleError (w : World) (msg : Text) : (handleError w msg).1.cfgs = w.cfgs := rfl
+
+theorem config_immutable_entryTail (w : World) (c : Cfg) (snapPath rel testID snapshot : Text) (cmp : Cmp) :
+    (entryTail w c snapPath rel testID snapshot cmp).1.cfgs = w.cfgs := by
+  unfold entryTail
+  dsimp only
+  repeat' split
+  all_goals rfl
+
+theorem config_immutable_standaloneTail (w : World) (c : Cfg) (snapPath rel snapshot : Text) :
+    (standaloneTail w c snapPath rel snapshot).1.cfgs = w.cfgs := by
+  unfold standaloneTail
+  dsimp only
+  repeat' split
+  all_goals rfl
+
+theorem config_immutable_matchEntry (w : World) (c : Cfg) (caller tName : Text) (texec : Nat)
+    (cmp : Cmp) (pre : Except Text Text) :
+    (matchEntry w c caller tName texec cmp pre).1.cfgs = w.cfgs := by
+  unfold matchEntry
+  generalize snapshotPath c caller tName false = sp
+  obtain ⟨snapPath, rel?⟩ := sp
+  dsimp only
+  split
+  · cases pre with
+    | error msg => rfl
+    | ok s => exact config_immutable_entryTail _ _ _ _ _ _ _
+  · rfl
+
+theorem config_immutable_matchStandalone (w : World) (c : Cfg) (caller tName : Text) (texec : Nat)
+    (pre : Except Text Text) :
+    (matchStandalone w c caller tName texec pre).1.cfgs = w.cfgs := by
+  unfold matchStandalone
+  generalize snapshotPath c caller tName true = sp
+  obtain ⟨generic, grel?⟩ := sp
+  dsimp only
+  split
+  · rfl
+  · split
+    · cases pre with
+      | error msg => rfl
+      | ok s => exact config_immutable_standaloneTail _ _ _ _ _
+    · rfl
+
+theorem config_immutable_trackSkip (w : World) (tName : Text) : (trackSkip w tName).cfgs = w.cfgs := rfl
+
+theorem config_immutable_endTest (w : World) (texec : Nat) : (endTest w texec).cfgs = w.cfgs := by
+  unfold endTest
+  dsimp only
+  generalize w.pending.filter (·.1 = texec) = mine
+  suffices h : ∀ (ps : List (Nat × Pending)) (w : World),
+      (ps.foldl (fun w p =>
+        match p.2 with
+        | .reg k => { w with running := alSet w.running k 0 }
+        | .sreg g => { w with srunning := alSet w.srunning g 0 }) w).cfgs = w.cfgs from h mine w
+  intro ps
+  induction ps with
+  | nil => intro w; rfl
+  | cons p ps ih =>
+    intro w
+    rw [List.foldl_cons, ih]
+    split <;> rfl
+
+theorem config_immutable_clean (o : Oracles) (w : World) (sortOpt : Bool) (runOnly : Text) (count : Nat) :
+    (clean o w sortOpt runOnly count).1.cfgs = w.cfgs := by
+  unfold clean
+  dsimp only
+  repeat' split
+  all_goals rfl
+
+/-- any finite run of model steps: the store at the end is the store at the start -/
+inductive Step
+  | entry (c : Cfg) (caller tName : Text) (texec : Nat) (cmp : Cmp) (pre : Except Text Text)
+  | standalone (c : Cfg) (caller tName : Text) (texec : Nat) (pre : Except Text Text)
+  | endTest (texec : Nat)
+  | skip (tName : Text)
+  | clean (o : Oracles) (sortOpt : Bool) (runOnly : Text) (count : Nat)
+
+def Step.run (w : World) : Step → World
+  | .entry c caller tName texec cmp pre => (matchEntry w c caller tName texec cmp pre).1
+  | .standalone c caller tName texec pre => (matchStandalone w c caller tName texec pre).1
+  | .endTest texec => GoSnaps.endTest w texec
+  | .skip tName => trackSkip w tName
+  | .clean o sortOpt runOnly count => (GoSnaps.clean o w sortOpt runOnly count).1
+
+theorem config_immutable_run (steps : List Step) (w : World) :
+    (steps.foldl Step.run w).cfgs = w.cfgs := by
+  induction steps generalizing w with
+  | nil => rfl
+  | cons st sts ih =>
+    rw [List.foldl_cons, ih]
+    cases st with
+    | entry => exact config_immutable_matchEntry _ _ _ _ _ _ _
+    | standalone => exact config_immutable_matchStandalone _ _ _ _ _ _
+    | endTest => exact config_immutable_endTest _ _
+    | skip => rfl
+    | clean => exact config_immutable_clean _ _ _ _ _
+
+/-- … hence every Config number still denotes the value it was created with -/
+theorem config_lookup_stable (steps : List Step) (w : World) (n : Nat) :
+    ((steps.foldl Step.run w).cfgs.find? (·.1 = n)).map (·.2) = (w.cfgs.find? (·.1 = n)).map (·.2) := by
+  rw [config_immutable_run]
+
+/-! ## 3. the driver's document operations -/
+
+/-- **Given that the source has no write through `*Config`**, `json` / `yaml` / `sajson` (and
+any other `op` handed to `docOp`, which is rejected) leave the store as it was.  In particular
+`(*Config).MatchStandaloneJSON` defaults the extension on a copy. -/
+theorem config_immutable_docOp (h : Generated.configWrites = []) (s : DState) (line op c t : String) :
+    (docOp s line op c t).1.w.cfgs = s.w.cfgs := by
+  have hcw : "Config.MatchStandaloneJSON: c.extension" ∉ Generated.configWrites := by rw [h]; simp
+  unfold docOp
+  split
+  · split
+    · exact config_immutable_matchEntry _ _ _ _ _ _ _
+    · exact config_immutable_matchEntry _ _ _ _ _ _ _
+    · simp only [List.contains_eq_mem, hcw, decide_false, Bool.false_eq_true, ↓reduceIte]
+      exact config_immutable_matchStandalone _ _ _ _ _ _
+    · rfl
+  · rfl
+
+theorem config_immutable_docOp_now (s : DState) (line op c t : String) :
+    (docOp s line op c t).1.w.cfgs = s.w.cfgs :=
+  config_immutable_docOp no_config_writes s line op c t
+
+/-- what the obligation protects against: were the defaulted extension stored back
+(`setCfg`), the shared Config would change and so would the file every later MatchSnapshot /
+MatchJSON call through it addresses (".snap" vs ".snap.json") -/
+example :
+    let c : Cfg := {}
+    let c' : Cfg := { c with extension := Generated.saJSONExt }
+    setCfg [(0, c)] 0 c' ≠ [(0, c)] ∧
+    constructFilename c [47, 97, 47, 98, 95, 116, 101, 115, 116, 46, 103, 111] [84] false =
+      [98, 95, 116, 101, 115, 116, 46, 115, 110, 97, 112] ∧                                 -- b_test.snap
+    constructFilename c' [47, 97, 47, 98, 95, 116, 101, 115, 116, 46, 103, 111] [84] false =
+      [98, 95, 116, 101, 115, 116, 46, 115, 110, 97, 112, 46, 106, 115, 111, 110] := by     -- b_test.snap.json
+  decide +kernel
+
+/-- the protocol operations that create or replace a Config value (`cfg`: `snaps.WithConfig`
+with an absolute directory; `cfgrel`: the same with a relative/default directory, present in
+later versions of the driver) or start from a fresh world -/
+def configOps : List String := ["cfg", "cfgrel", "world"]
+
+/-- **every protocol line**: `Driver.step` changes the Config store only on the lines whose
+first token is one of `configOps`; every other line — every Match*, Skip, Clean, end-of-test,
+file-system and oracle line — leaves it as it was -/
+theorem config_immutable_step (s : DState) (line : String)
+    (h : ∀ k ∈ configOps, ((line.splitOn " ").filter (· ≠ "")).head? ≠ some k) :
+    (step s line).1.w.cfgs = s.w.cfgs := by
+  unfold step
+  generalize (line.splitOn " ").filter (· ≠ "") = toks at h
+  dsimp only
+  split
+  all_goals first
+    | rfl
+    | exact config_immutable_docOp_now _ _ _ _ _
+    | (simp [configOps] at h; done)
+    | (repeat' split) <;> first
+      | rfl
+      | exact config_immutable_matchEntry _ _ _ _ _ _ _
+      | exact config_immutable_matchStandalone _ _ _ _ _ _
+      | exact config_immutable_endTest _ _
+      | exact config_immutable_clean _ _ _ _ _
+
+/-! ## 4. addressing depends on the Config value only; call order is irrelevant -/
+
+/-- the file a multi-entry call addresses -/
+def addrEntry (c : Cfg) (caller tName : Text) : Text := (snapshotPath c caller tName false).1
+
+/-- the file a standalone call addresses: the generic path with the per-path ordinal filled in -/
+def addrStandalone (w : World) (c : Cfg) (caller tName : Text) : Option Text :=
+  let g := (snapshotPath c caller tName true).1
+  sprintf g [.d (alGet w.srunning g + 1)]
+
+/-- `snapshotPath` has no argument but `(c, caller, tName, standalone)`: no world, no registry,
+no environment.  (Trivial by definition — stated so that a change of the signature breaks it.) -/
+theorem order_independent (w w' : World) (c : Cfg) (caller tName : Text) (sa : Bool) :
+    (fun (_ : World) => snapshotPath c caller tName sa) w = (fun (_ : World) => snapshotPath c caller tName sa) w' :=
+  rfl
+
+/-- a multi-entry call writes nowhere but at its address -/
+theorem matchEntry_writes (w : World) (c : Cfg) (caller tName : Text) (texec : Nat) (cmp : Cmp)
+    (pre : Except Text Text) :
+    ∀ p ∈ (matchEntry w c caller tName texec cmp pre).2.writes, p = addrEntry c caller tName := by
+  unfold matchEntry addrEntry
+  generalize snapshotPath c caller tName false = sp
+  obtain ⟨snapPath, rel?⟩ := sp
+  dsimp only
+  split
+  · cases pre with
+    | error msg => simp [handleError]
+    | ok s =>
+      unfold entryTail
+      dsimp only
+      repeat' split
+      all_goals simp [handleError, unsup]
+  · simp [unsup]
+
+/-- a standalone call writes nowhere but at its address -/
+theorem matchStandalone_writes (w : World) (c : Cfg) (caller tName : Text) (texec : Nat)
+    (pre : Except Text Text) :
+    ∀ p ∈ (matchStandalone w c caller tName texec pre).2.writes, some p = addrStandalone w c caller tName := by
+  unfold matchStandalone addrStandalone
+  generalize snapshotPath c caller tName true = sp
+  obtain ⟨generic, grel?⟩ := sp
+  dsimp only [sregBump]
+  split
+  · simp [unsup]
+  · split
+    · rename_i snapPath rel hsp hrel
+      cases pre with
+      | error msg => simp [handleError]
+      | ok s =>
+        unfold standaloneTail
+        dsimp only
+        repeat' split
+        all_goals simp_all [handleError]
+    · simp [unsup]
+
+/-- a multi-entry call leaves the standalone registry alone, a standalone call the multi-entry one -/
+theorem matchEntry_srunning (w : World) (c : Cfg) (caller tName : Text) (texec : Nat) (cmp : Cmp)
+    (pre : Except Text Text) : (matchEntry w c caller tName texec cmp pre).1.srunning = w.srunning := by
+  unfold matchEntry
+  generalize snapshotPath c caller tName false = sp
+  obtain ⟨snapPath, rel?⟩ := sp
+  dsimp only
+  split
+  · cases pre with
+    | error msg => rfl
+    | ok s => exact (entryTail_regs _ _ _ _ _ _ _).srunning
+  · rfl
+
+theorem matchStandalone_running (w : World) (c : Cfg) (caller tName : Text) (texec : Nat)
+    (pre : Except Text Text) : (matchStandalone w c caller tName texec pre).1.running = w.running := by
+  unfold matchStandalone
+  generalize snapshotPath c caller tName true = sp
+  obtain ⟨generic, grel?⟩ := sp
+  dsimp only
+  split
+  · rfl
+  · split
+    · cases pre with
+      | error msg => rfl
+      | ok s => exact (standaloneTail_regs _ _ _ _ _).running
+    · rfl
+
+/-- **Either order, same addresses**: a `MatchJSON`-like call and a `MatchStandaloneJSON`-like
+call through the same Config value `c` (any tests, any `pre`), made in either order, address
+the same two files, get the same ordinals, and can only write at those addresses; the Config
+store is the same afterwards. -/
+theorem order_independent_calls (w : World) (c : Cfg) (caller t₁ t₂ : Text) (x₁ x₂ : Nat) (cmp : Cmp)
+    (pre₁ pre₂ : Except Text Text) :
+    let a₁ := matchEntry w c caller t₁ x₁ cmp pre₁                 -- entry first
+    let a₂ := matchStandalone a₁.1 c caller t₂ x₂ pre₂
+    let b₂ := matchStandalone w c caller t₂ x₂ pre₂                -- standalone first
+    let b₁ := matchEntry b₂.1 c caller t₁ x₁ cmp pre₁
+    -- the standalone call resolves to the same file in both orders
+    addrStandalone a₁.1 c caller t₂ = addrStandalone w c caller t₂ ∧
+    -- the entry call gets the same ordinal in both orders
+    (regBump b₂.1 (addrEntry c caller t₁, t₁)).2 = (regBump w (addrEntry c caller t₁, t₁)).2 ∧
+    -- all writes of both orders go to the same two addresses
+    (∀ p ∈ a₁.2.writes ++ a₂.2.writes, p = addrEntry c caller t₁ ∨ some p = addrStandalone w c caller t₂) ∧
+    (∀ p ∈ b₂.2.writes ++ b₁.2.writes, p = addrEntry c caller t₁ ∨ some p = addrStandalone w c caller t₂) ∧
+    a₂.1.cfgs = w.cfgs ∧ b₁.1.cfgs = w.cfgs := by
+  intro a₁ a₂ b₂ b₁
+  have hs : addrStandalone a₁.1 c caller t₂ = addrStandalone w c caller t₂ := by
+    simp only [addrStandalone, a₁, matchEntry_srunning]
+  refine ⟨hs, ?_, ?_, ?_, ?_, ?_⟩
+  · simp only [regBump_snd, b₂, matchStandalone_running]
+  · intro p hp
+    rcases List.mem_append.mp hp with h | h
+    · exact .inl (matchEntry_writes _ _ _ _ _ _ _ p h)
+    · exact .inr ((matchStandalone_writes _ _ _ _ _ _ p h).trans hs)
+  · intro p hp
+    rcases List.mem_append.mp hp with h | h
+    · exact .inr (matchStandalone_writes _ _ _ _ _ _ p h)
+    · exact .inl (matchEntry_writes _ _ _ _ _ _ _ p h)
+  · simp only [a₂, a₁, config_immutable_matchStandalone, config_immutable_matchEntry]
+  · simp only [b₁, b₂, config_immutable_matchStandalone, config_immutable_matchEntry]
+
+
+/-! ## 5. the outcomes commute -/
+
+theorem entryTail_out_congr (w w' : World) (c : Cfg) (p rel id s : Text) (cmp : Cmp)
+    (he : w'.env = w.env) (hf : fsRead w'.fs p = fsRead w.fs p) :
+    (entryTail w' c p rel id s cmp).2 = (entryTail w c p rel id s cmp).2 := by
+  unfold entryTail
+  rw [hf, he]
+  dsimp only
+  repeat' split
+  all_goals first | rfl | simp_all
+
+theorem standaloneTail_out_congr (w w' : World) (c : Cfg) (p rel s : Text)
+    (he : w'.env = w.env) (hf : fsRead w'.fs p = fsRead w.fs p) :
+    (standaloneTail w' c p rel s).2 = (standaloneTail w c p rel s).2 := by
+  unfold standaloneTail
+  rw [hf, he]
+  dsimp only
+  repeat' split
+  all_goals first | rfl | simp_all
+
+theorem entryTail_frame (w : World) (c : Cfg) (p rel id s : Text) (cmp : Cmp) :
+    (entryTail w c p rel id s cmp).1.env = w.env ∧
+    ∀ q, q ≠ p → fsRead (entryTail w c p rel id s cmp).1.fs q = fsRead w.fs q := by
+  unfold entryTail
+  dsimp only
+  repeat' split
+  all_goals exact ⟨rfl, fun q hq => by first | rfl | exact C19.fsRead_fsWrite_other _ _ _ _ hq⟩
+
+theorem standaloneTail_frame (w : World) (c : Cfg) (p rel s : Text) :
+    (standaloneTail w c p rel s).1.env = w.env ∧
+    ∀ q, q ≠ p → fsRead (standaloneTail w c p rel s).1.fs q = fsRead w.fs q := by
+  unfold standaloneTail
+  dsimp only
+  repeat' split
+  all_goals exact ⟨rfl, fun q hq => by first | rfl | exact C19.fsRead_fsWrite_other _ _ _ _ hq⟩
+
+theorem matchEntry_frame (w : World) (c : Cfg) (caller tName : Text) (texec : Nat) (cmp : Cmp)
+    (pre : Except Text Text) :
+    (matchEntry w c caller tName texec cmp pre).1.env = w.env ∧
+    ∀ q, q ≠ addrEntry c caller tName →
+      fsRead (matchEntry w c caller tName texec cmp pre).1.fs q = fsRead w.fs q := by
+  unfold matchEntry addrEntry
+  generalize snapshotPath c caller tName false = sp
+  obtain ⟨snapPath, rel?⟩ := sp
+  dsimp only
+  split
+  · cases pre with
+    | error msg => exact ⟨rfl, fun _ _ => rfl⟩
+    | ok s => exact entryTail_frame _ _ _ _ _ _ _
+  · exact ⟨rfl, fun _ _ => rfl⟩
+
+theorem matchStandalone_frame (w : World) (c : Cfg) (caller tName : Text) (texec : Nat)
+    (pre : Except Text Text) :
+    (matchStandalone w c caller tName texec pre).1.env = w.env ∧
+    ∀ q, some q ≠ addrStandalone w c caller tName →
+      fsRead (matchStandalone w c caller tName texec pre).1.fs q = fsRead w.fs q := by
+  unfold matchStandalone addrStandalone
+  generalize snapshotPath c caller tName true = sp
+  obtain ⟨generic, grel?⟩ := sp
+  dsimp only [sregBump]
+  split
+  · exact ⟨rfl, fun _ _ => rfl⟩
+  · split
+    · rename_i snapPath rel hsp hrel
+      cases pre with
+      | error msg => exact ⟨rfl, fun _ _ => rfl⟩
+      | ok s =>
+        refine ⟨(standaloneTail_frame _ _ _ _ _).1, fun q hq => ?_⟩
+        rw [hsp] at hq
+        exact (standaloneTail_frame _ _ _ _ _).2 q (fun e => hq (by rw [e]))
+    · exact ⟨rfl, fun _ _ => rfl⟩
+
+theorem matchEntry_out_congr (w w' : World) (c : Cfg) (caller tName : Text) (texec : Nat) (cmp : Cmp)
+    (pre : Except Text Text) (hr : w'.running = w.running) (he : w'.env = w.env)
+    (hf : fsRead w'.fs (addrEntry c caller tName) = fsRead w.fs (addrEntry c caller tName)) :
+    (matchEntry w' c caller tName texec cmp pre).2 = (matchEntry w c caller tName texec cmp pre).2 := by
+  unfold matchEntry addrEntry at *
+  generalize snapshotPath c caller tName false = sp at hf ⊢
+  obtain ⟨snapPath, rel?⟩ := sp
+  dsimp only [regBump] at hf ⊢
+  rw [hr]
+  split
+  · cases pre with
+    | error msg => rfl
+    | ok s => exact entryTail_out_congr _ _ _ _ _ _ _ _ he hf
+  · rfl
+
+theorem matchStandalone_out_congr (w w' : World) (c : Cfg) (caller tName : Text) (texec : Nat)
+    (pre : Except Text Text) (hr : w'.srunning = w.srunning) (he : w'.env = w.env)
+    (hf : ∀ q, some q = addrStandalone w c caller tName → fsRead w'.fs q = fsRead w.fs q) :
+    (matchStandalone w' c caller tName texec pre).2 = (matchStandalone w c caller tName texec pre).2 := by
+  unfold matchStandalone addrStandalone at *
+  generalize snapshotPath c caller tName true = sp at hf ⊢
+  obtain ⟨generic, grel?⟩ := sp
+  dsimp only [sregBump] at hf ⊢
+  rw [hr]
+  split
+  · rfl
+  · split
+    · rename_i snapPath rel hsp hrel
+      cases pre with
+      | error msg => rfl
+      | ok s => exact standaloneTail_out_congr _ _ _ _ _ _ he (hf snapPath hsp.symm)
+    · rfl
+
+/-- **Either order, same outcomes**: if the two calls address different files (always the case
+for one Config value: `<name>.snap…` vs `<name>_<k>.snap…`; kept as a hypothesis here), then each
+call produces the same events, writes and output whichever of the two runs first -/
+theorem calls_commute (w : World) (c : Cfg) (caller t₁ t₂ : Text) (x₁ x₂ : Nat) (cmp : Cmp)
+    (pre₁ pre₂ : Except Text Text)
+    (hne : addrStandalone w c caller t₂ ≠ some (addrEntry c caller t₁)) :
+    let a₁ := matchEntry w c caller t₁ x₁ cmp pre₁
+    let a₂ := matchStandalone a₁.1 c caller t₂ x₂ pre₂
+    let b₂ := matchStandalone w c caller t₂ x₂ pre₂
+    let b₁ := matchEntry b₂.1 c caller t₁ x₁ cmp pre₁
+    a₁.2 = b₁.2 ∧ a₂.2 = b₂.2 := by
+  intro a₁ a₂ b₂ b₁
+  constructor
+  · refine (matchEntry_out_congr w b₂.1 c caller t₁ x₁ cmp pre₁ (matchStandalone_running _ _ _ _ _ _)
+      (matchStandalone_frame _ _ _ _ _ _).1 ?_).symm
+    exact (matchStandalone_frame w c caller t₂ x₂ pre₂).2 _ (fun e => hne e.symm)
+  · refine matchStandalone_out_congr w a₁.1 c caller t₂ x₂ pre₂ (matchEntry_srunning _ _ _ _ _ _ _)
+      (matchEntry_frame _ _ _ _ _ _ _).1 ?_
+    intro q hq
+    exact (matchEntry_frame w c caller t₁ x₁ cmp pre₁).2 q (fun e => hne (by rw [← hq, e]))
+
+/-- two creations from an empty world, in both orders: the same two files are written -/
+example :
+    let w : World := { env := ⟨false, ""⟩ }
+    let c : Cfg := {}
+    let caller : Text := [47, 97, 47, 98, 95, 116, 101, 115, 116, 46, 103, 111]   -- "/a/b_test.go"
+    let a₁ := matchEntry w c caller [84] 0 .raw (.ok [120])
+    let a₂ := matchStandalone a₁.1 c caller [84] 0 (.ok [121])
+    let b₂ := matchStandalone w c caller [84] 0 (.ok [121])
+    let b₁ := matchEntry b₂.1 c caller [84] 0 .raw (.ok [120])
+    a₁.2.writes = b₁.2.writes ∧ a₂.2.writes = b₂.2.writes ∧ a₁.2.writes ≠ [] ∧ a₂.2.writes ≠ [] ∧
+    a₁.2.writes ≠ a₂.2.writes := by
+  decide +kernel
+
 end GoSnaps.C12
